@@ -10,7 +10,7 @@ rm -rf "$S/repo" "$S/drv"
 cp -r "$R/sim/drv" "$S/drv"
 cd "$S/drv"
 if [ "$2" = race ]; then
-  go build -race -o "$S/simdrv-race" .
+  go build -trimpath -race -o "$S/simdrv-race" .
 else
-  go build -o "$S/simdrv" .
+  go build -trimpath -o "$S/simdrv" .
 fi
